@@ -408,6 +408,7 @@ fn replay<T: Elem>(lines: &[String], slots: usize) -> (usize, Vec<Value>) {
     let mut failures = vec![];
     let mut steps = 0;
     for (bi, line) in lines.iter().enumerate() {
+        vkit::mark(bi);
         let beh: Value = serde_json::from_str(line).expect("behaviour json");
         let base = ledger::snap();
         let mut w = World::<T>::new(slots);
